@@ -7,38 +7,55 @@ use std::rc::Rc;
 const A: usize = 0;
 const B: usize = 1;
 
-/// a<->b built, DC a (cached), DC b with certificate, the attack b->a removed, DC b, DC a with certificate
-static H_CO_1: [Event; 9] = [(0, A, 0, false), (0, B, 0, false), (2, A, B, false), (2, B, A, false), (4, A, 0, false), (4, B, 0, true), (3, B, A, false), (4, B, 0, false), (4, A, 0, true)];
-/// a->b, DS b, DC a with certificate, b removed and re-added (new id), DS b with certificate, DC b
-static H_ST_1: [Event; 9] = [(0, A, 0, false), (0, B, 0, false), (2, A, B, false), (5, B, 0, false), (4, A, 0, true), (1, B, 0, false), (0, B, 0, false), (5, B, 0, true), (4, B, 0, false)];
-/// self-attacker: no stable extension, then repaired by removing the attack
-static H_ST_2: [Event; 7] = [(0, A, 0, false), (2, A, A, false), (4, A, 0, true), (5, A, 0, true), (3, A, A, false), (4, A, 0, true), (5, A, 0, false)];
+/// a<->b built, DC a with certificate, then DC a again (answered from the cache)
+static H_CO_1: [Event; 6] = [(0, A, 0, false), (0, B, 0, false), (2, A, B, false), (2, B, A, false), (4, A, 0, true), (4, A, 0, true)];
+/// a<->b, DC b, the attack a->b removed, DC a (no longer acceptable: b attacks it, nothing defends it)
+static H_CO_2: [Event; 7] = [(0, A, 0, false), (0, B, 0, false), (2, A, B, false), (2, B, A, false), (4, B, 0, false), (3, A, B, false), (4, A, 0, true)];
+/// a->b, DS b with certificate, b removed and re-added under a new id, DS b with certificate
+static H_ST_1: [Event; 7] = [(0, A, 0, false), (0, B, 0, false), (2, A, B, false), (5, B, 0, true), (1, B, 0, false), (0, B, 0, false), (5, B, 0, true)];
+/// self-attacker: no stable extension (DC NO, DS YES), repaired by removing the attack
+static H_ST_2: [Event; 6] = [(0, A, 0, false), (2, A, A, false), (4, A, 0, true), (5, A, 0, true), (3, A, A, false), (4, A, 0, true)];
+/// a, b; DC a caches {a,b} as accepted; b->a added: the cache must not answer DC a any more
+static H_ST_3: [Event; 5] = [(0, A, 0, false), (0, B, 0, false), (4, A, 0, true), (2, B, A, false), (4, A, 0, false)];
+/// a->b, DC b (NO), the attacker a removed, DC b (YES): the attacked argument must be re-encoded
+static H_CO_4: [Event; 6] = [(0, A, 0, false), (0, B, 0, false), (2, A, B, false), (4, B, 0, false), (1, A, 0, false), (4, B, 0, true)];
+static H_ST_4: [Event; 6] = [(0, A, 0, false), (0, B, 0, false), (2, A, B, false), (5, B, 0, true), (1, A, 0, false), (5, B, 0, true)];
 /// redundant and invalid updates interleaved with queries (C09)
-static H_CO_BAD: [Event; 10] = [(1, A, 0, false), (0, A, 0, false), (0, A, 0, false), (2, A, B, false), (0, B, 0, false), (2, B, A, false), (2, B, A, false), (4, A, 0, true), (3, A, B, false), (4, B, 0, true)];
-static H_ST_BAD: [Event; 10] = [(3, A, A, false), (0, A, 0, false), (0, B, 0, false), (0, A, 0, false), (2, A, B, false), (1, B, 0, false), (1, B, 0, false), (5, A, 0, true), (2, A, B, false), (4, A, 0, true)];
+static H_CO_BAD: [Event; 8] = [(1, A, 0, false), (0, A, 0, false), (0, A, 0, false), (2, A, B, false), (0, B, 0, false), (2, B, A, false), (2, B, A, false), (4, A, 0, true)];
+static H_ST_BAD: [Event; 8] = [(3, A, A, false), (0, A, 0, false), (0, B, 0, false), (0, A, 0, false), (2, A, B, false), (1, B, 0, false), (1, B, 0, false), (5, A, 0, true)];
+/// three labels: the most recent argument is removed, an existing one re-declared, a new one created and queried
+const C: usize = 2;
+static H_CO_BAD3: [Event; 6] = [(0, A, 0, false), (0, B, 0, false), (1, B, 0, false), (0, A, 0, false), (0, C, 0, false), (4, C, 0, true)];
+static H_ST_BAD3: [Event; 7] = [(0, A, 0, false), (0, B, 0, false), (2, B, A, false), (1, B, 0, false), (0, A, 0, false), (0, C, 0, false), (5, C, 0, true)];
 
-fn run(which: Dyn, events: &'static [Event], allow_bad: bool) {
+fn run<const WORDS: usize>(which: Dyn, events: &'static [Event], allow_bad: bool) {
     let sh = Rc::new(Shared::default());
-    let plan = Plan { events: events.len(), allow_bad, labels: 2, arg_factor: 1.0, fixed: Some(events) };
-    history::<2>(which, plan, &sh);
+    let plan = Plan { events: events.len(), allow_bad, labels: 3, arg_factor: 1.0, fixed: Some(events) };
+    history::<WORDS>(which, plan, &sh);
 }
 
 macro_rules! dynamic_harness {
-    ($name:ident, $which:expr, $events:expr, $bad:expr, $unwind:literal) => {
+    ($name:ident, $which:expr, $events:expr, $bad:expr, $unwind:literal, $words:literal) => {
         #[cfg_attr(kani, kani::proof)]
         #[cfg_attr(kani, kani::stub(alloc::fmt::format, crate::util::fmt_stub))]
         #[cfg_attr(kani, kani::stub(std::backtrace::Backtrace::capture, crate::util::bt_stub))]
         #[cfg_attr(kani, kani::stub(<anyhow::Error as std::ops::Drop>::drop, crate::util::noop_err_drop))]
         #[cfg_attr(kani, kani::unwind($unwind))]
         pub fn $name() {
-            run($which, &$events, $bad);
+            run::<$words>($which, &$events, $bad);
         }
     };
 }
 
-dynamic_harness!(c08_q_complete_h1, Dyn::Complete, H_CO_1, false, 10);
-dynamic_harness!(c08_q_stable_h1, Dyn::Stable, H_ST_1, false, 10);
-dynamic_harness!(c08_t_stable_h2, Dyn::Stable, H_ST_2, false, 10);
-dynamic_harness!(c08_t_dummy_st_h1, Dyn::DummySt, H_ST_1, false, 10);
-dynamic_harness!(c09_q_complete_bad, Dyn::Complete, H_CO_BAD, true, 10);
-dynamic_harness!(c09_q_stable_bad, Dyn::Stable, H_ST_BAD, true, 10);
+dynamic_harness!(c08_q_complete_h1, Dyn::Complete, H_CO_1, false, 10, 2);
+dynamic_harness!(c08_q_stable_h3, Dyn::Stable, H_ST_3, false, 10, 2);
+dynamic_harness!(c08_q_complete_h4, Dyn::Complete, H_CO_4, false, 10, 2);
+dynamic_harness!(c08_t_stable_h4, Dyn::Stable, H_ST_4, false, 10, 2);
+dynamic_harness!(c08_t_complete_h2, Dyn::Complete, H_CO_2, false, 10, 2);
+dynamic_harness!(c08_t_stable_h1, Dyn::Stable, H_ST_1, false, 10, 2);
+dynamic_harness!(c08_t_stable_h2, Dyn::Stable, H_ST_2, false, 10, 2);
+dynamic_harness!(c08_t_dummy_st_h3, Dyn::DummySt, H_ST_3, false, 10, 2);
+dynamic_harness!(c09_q_complete_bad, Dyn::Complete, H_CO_BAD, true, 10, 2);
+dynamic_harness!(c09_q_stable_bad3, Dyn::Stable, H_ST_BAD3, true, 10, 4);
+dynamic_harness!(c09_t_stable_bad, Dyn::Stable, H_ST_BAD, true, 10, 2);
+dynamic_harness!(c09_t_complete_bad3, Dyn::Complete, H_CO_BAD3, true, 10, 4);
